@@ -191,6 +191,65 @@ func rulesC19(w *World, o *Out) {
 		}
 	}
 
+	// the class constants sit at the very top of the int64 range, one apart: only an exact comparator tells them apart
+	if ndp != nil {
+		var cmpFn *ssa.Function
+		for _, b := range ndp.Blocks {
+			for _, in := range b.Instrs {
+				if st, isSt := in.(*ssa.Store); isSt {
+					if fa, isFA := st.Addr.(*ssa.FieldAddr); isFA && fieldName(fa.X.Type(), fa.Field) == "Compare" {
+						switch v := st.Val.(type) {
+						case *ssa.Function:
+							cmpFn = v
+						case *ssa.MakeClosure:
+							cmpFn, _ = v.Fn.(*ssa.Function)
+						}
+					}
+				}
+			}
+		}
+		if cmpFn == nil {
+			o.Unresolved("Compare function of NewDefaultTxPriority")
+		} else {
+			o.Analysed(w.FuncKey(cmpFn))
+			exact := true
+			why := ""
+			nCalls := 0
+			for _, f := range unitFuncs(cmpFn) {
+				for _, b := range f.Blocks {
+					for _, in := range b.Instrs {
+						switch x := in.(type) {
+						case *ssa.Convert:
+							if bt, isB := x.Type().Underlying().(*types.Basic); isB && bt.Info()&types.IsFloat != 0 {
+								exact, why = false, "converts a priority to floating point"
+							}
+						case *ssa.Call:
+							cal, okc := CalleeOf(x.Common())
+							if !okc {
+								continue
+							}
+							nCalls++
+							if cal.Pkg == "github.com/huandu/skiplist" && cal.Name == "Compare" {
+								want := constant.MakeUnknown()
+								if sp := w.TypesPkg("github.com/huandu/skiplist"); sp != nil {
+									if c, isC := sp.Scope().Lookup("Int64").(*types.Const); isC {
+										want = c.Val()
+									}
+								}
+								k, isK := x.Call.Args[0].(*ssa.Const)
+								if !isK || k.Value == nil || want.Kind() == constant.Unknown || !constant.Compare(k.Value, token.EQL, want) {
+									exact, why = false, "uses a skiplist comparator other than skiplist.Int64 (the generic integer kinds compare through float64)"
+								}
+							} else if cal.Pkg != "cmp" {
+								exact, why = false, "calls "+cal.String()
+							}
+						}
+					}
+				}
+			}
+			o.Check("C19.R1", "priority comparator|exact on int64", exact, w.Pos(cmpFn.Pos()), "MaxInt64, MaxInt64-1, MaxInt64-2 and MaxInt64-3 all round to 2^63 as float64; a comparator that is not exact on int64 makes the four classes compare equal. "+why)
+		}
+	}
 	// ---- R2 ----
 	ins := w.MustFunc(o, "app/mempool", "PriorityNonceMempool", "Insert")
 	rem := w.MustFunc(o, "app/mempool", "PriorityNonceMempool", "Remove")
